@@ -341,6 +341,9 @@ class ExcelOpxWrapper(ExcelWrapper):
             sheet = self.workbook.active
             sheet_dataonly = self.workbook_dataonly.active
 
+        # reading cells can grow the sheet: note the used area beforehand
+        self.max_col_row(sheet.title)
+
         with mock.patch('openpyxl.worksheet._reader.from_excel',
                         self.from_excel):
             # work around type coercion to datetime that causes some issues
